@@ -464,6 +464,13 @@ func (c *fnCtx) expr(e ast.Expr) string {
 			return fmt.Sprintf("(skipn (Z.to_nat %s) %s)", c.expr(e.Low), c.expr(e.X))
 		}
 		c.g.fail(e.Pos(), "slice expression %s", types.ExprString(e))
+	case *ast.IndexExpr:
+		// xs[i] on a list of strings: Go panics past the end, the translation yields "" there
+		// (the callers' indices are covered by the no-panic theorem C14_no_panic)
+		if kindOf(c.typeOf(e.X)) == "list" && kindOf(c.typeOf(e)) == "str" && kindOf(c.typeOf(e.Index)) == "Z" {
+			return fmt.Sprintf("(nth (Z.to_nat %s) %s [])", c.expr(e.Index), c.expr(e.X))
+		}
+		c.g.fail(e.Pos(), "index expression %s", types.ExprString(e))
 	case *ast.TypeAssertExpr:
 		// m.Type().(*types.Signature) on a *types.Func: the signature the model keeps with the function
 		if c.typeOf(e).String() == "*go/types.Signature" {
@@ -641,6 +648,8 @@ func (c *fnCtx) call(e *ast.CallExpr) string {
 						return fmt.Sprintf("(join_str %s %s)", as[1], as[0])
 					case "IndexByte":
 						return fmt.Sprintf("(go_index_byte %s %s)", as[0], as[1])
+					case "EqualFold":
+						return fmt.Sprintf("(str_equal_fold %s %s)", as[0], as[1])
 					case "HasPrefix":
 						return fmt.Sprintf("(go_has_prefix %s %s)", as[0], as[1])
 					case "HasSuffix":
@@ -1499,6 +1508,13 @@ var gofunUnits = []gofunUnit{
 			{"github.com/reedom/convergen/pkg/builder/model", "Node", "AssignExpr"},
 			{"github.com/reedom/convergen/pkg/builder/model", "Node", "MatcherExpr"},
 			{"github.com/reedom/convergen/pkg/builder/model", "Node", "NullCheckExpr"},
+			{"github.com/reedom/convergen/pkg/option", "IdentMatcher", "Match"},
+			{"github.com/reedom/convergen/pkg/option", "IdentMatcher", "ForGetter"},
+			{"github.com/reedom/convergen/pkg/option", "IdentMatcher", "ExprAt"},
+			{"github.com/reedom/convergen/pkg/option", "IdentMatcher", "PathLen"},
+			{"github.com/reedom/convergen/pkg/option", "NameMatcher", "Match"},
+			{"github.com/reedom/convergen/pkg/option", "FieldConverter", "Match"},
+			{"github.com/reedom/convergen/pkg/option", "FieldConverter", "RHSExpr"},
 		},
 		doc: "pkg/builder/model node.go and struct.go: the methods of the expression nodes (RootNode, ScalarNode, ConverterNode, TypecastEntry, StringerEntry, StructFieldNode, StructMethodNode) by cases"},
 }
@@ -1656,7 +1672,7 @@ func writeGoFuns(repo, out string) {
 	var sb strings.Builder
 	sb.WriteString("(** GoFuns.v — GENERATED by harness/cmd/translate (gofun.go) from /repo's Go sources on every run. Do not edit.\n")
 	sb.WriteString("    Go functions translated statement by statement (see DESIGN.md section 3.1, stage 2). *)\n")
-	sb.WriteString("From Coq Require Import List NArith ZArith Bool.\nFrom Cvg Require Import Base GoTypes GoLib.\nImport ListNotations.\nOpen Scope N_scope.\n\n")
+	sb.WriteString("From Coq Require Import List NArith ZArith Bool.\nFrom Cvg Require Import Base GoTypes Re Unicode GoLib.\nImport ListNotations.\nOpen Scope N_scope.\n\n")
 	var problems []string
 	for _, u := range gofunUnits {
 		body, ps := translateUnit(repo, u)
